@@ -94,3 +94,32 @@ Definition named_ok (k : name) (s : schema) : bool :=
   | _ => false
   end.
 Definition names_okb (nmz : names) : bool := forallb (fun ks => named_ok (fst ks) (snd ks)) nmz.
+
+(* Structural sanity of a schema that the parser guarantees and decoding relies on: distinct field
+   names in every record, union branch indices that fit the u32 of Value::Union, fixed-backed
+   decimals of at least one byte. *)
+Fixpoint schema_wfb (s : schema) : bool :=
+  match s with
+  | SArray it _ => schema_wfb it
+  | SMap vt _ => schema_wfb vt
+  | SUnion bs => (lenN bs <=? 2 ^ 32) && forallb schema_wfb bs
+  | SRecord _ _ _ fs _ =>
+    nodup_strs (map (fun ms : fmeta * schema => f_name (fst ms)) fs)
+    && forallb (fun ms : fmeta * schema => schema_wfb (snd ms)) fs
+  | SDecimal _ _ (DFixed fx) => 1 <=? fx_size fx
+  | _ => true
+  end.
+Definition names_wfb (nmz : names) : bool := forallb (fun ks => schema_wfb (snd ks)) nmz.
+
+(* The leaves at which a successfully decoded value may fail to be canonical (known finding F36 and
+   its relatives): a bytes-backed decimal of zero bytes (decodes, cannot be re-encoded), and a
+   big-decimal whose re-encoding (minimal unscaled bytes) no longer fits the allocation limit. *)
+Fixpoint leaf_ok (c : cfg) (v : value) : bool :=
+  match v with
+  | VDecimal b => negb (lenN b =? 0)
+  | VBigDecimal u sc => len_ok c (lenN u) && len_ok c (lenN (enc_bytes u ++ enc_long sc))
+  | VUnion _ x => leaf_ok c x
+  | VArray l => forallb (leaf_ok c) l
+  | VMap l | VRecord l => forallb (fun kv => leaf_ok c (snd kv)) l
+  | _ => true
+  end.
